@@ -937,7 +937,7 @@ Qed.
 Lemma term_draw_emit W H fails tg ls c tg' e c' ok :
   term_draw W H fails tg ls c = (tg', e, c', ok) ->
   emit fails c (draw_calls ls (tt_n tg) (tt_align tg) (tt_below tg) W H) = (e, c', ok) /\
-  tg' = mktt (if ok then draw_n ls (tt_n tg) (tt_align tg) (tt_below tg) W H else tt_n tg)
+  tg' = mktt (if ok then draw_n ls (tt_n tg) (tt_align tg) (tt_below tg) W H else N.min (tt_n tg) H)
              (tt_rl tg) (tt_align tg)
              (if ok then draw_below ls (tt_n tg) (tt_align tg) (tt_below tg) W H else tt_below tg).
 Proof.
